@@ -94,6 +94,12 @@ class TunnelEndpoint(Endpoint):
         """
         self.endpoint.add_prefix_listener(listener, prefix)
 
+    def remove_listener(self, listener: EndpointListener) -> None:
+        """
+        Forward directly to the underlying endpoint.
+        """
+        self.endpoint.remove_listener(listener)
+
     def assert_open(self) -> None:
         """
         Forward directly to the underlying endpoint.
